@@ -110,8 +110,20 @@ def parseStatusLine (line : Bytes) : Option (Bytes × Nat) :=
       | some c => if statusKnown c then some (version, c) else none
     | _ => none
 
-/-- The body: chunked (reported as a plain body with its length), else Content-Length, else empty. -/
-def parseBody {σ : Type} (S : Source σ) (headers : Headers) (s : σ) :
+/-- Statuses that never carry a body (RFC 9112 §6.3): 1xx, 204, 304. -/
+def noBodyStatus (c : Nat) : Bool := c < 200 || c = 204 || c = 304
+
+/-- Everything up to end of stream (`read_to_end`), by repeated `read_until`. -/
+def readRest {σ : Type} (S : Source σ) : Nat → σ → Bytes → Bytes × σ
+  | 0, s, acc => (acc, s)
+  | fuel + 1, s, acc =>
+    let (line, s') := S.readUntil LF s
+    if line.isEmpty then (acc, s') else readRest S fuel s' (acc ++ line)
+
+/-- The body: chunked (reported as a plain body with its length), else Content-Length, else — for
+statuses that may carry one — everything until the peer closes (close-delimited, after the D20
+repair), else empty. -/
+def parseBody {σ : Type} (S : Source σ) (code : Nat) (headers : Headers) (s : σ) :
     Outcome RespErr ((Headers × Bytes) × σ) :=
   if headers.get hTransferEncoding = some chunkedValue then
     match parseChunks S (S.remaining s + 1) s [] with
@@ -128,7 +140,11 @@ def parseBody {σ : Type} (S : Source σ) (headers : Headers) (s : σ) :
         match S.readExact n s with
         | none => .err .stream
         | some (body, s') => .ok ((headers, body), s')
-    | none => .ok ((headers, []), s)
+    | none =>
+      if noBodyStatus code then .ok ((headers, []), s)
+      else
+        let (body, s') := readRest S (S.remaining s + 1) s []
+        .ok ((headers, body), s')
 
 /-- `Response::from_stream`. -/
 def parseResponse {σ : Type} (S : Source σ) (s : σ) : Outcome RespErr (Response × σ) :=
@@ -140,7 +156,7 @@ def parseResponse {σ : Type} (S : Source σ) (s : σ) : Outcome RespErr (Respon
     | .err e => .err e
     | .panic => .panic
     | .ok (headers, s2) =>
-      match parseBody S headers s2 with
+      match parseBody S c headers s2 with
       | .err e => .err e
       | .panic => .panic
       | .ok ((hs, body), s3) => .ok (⟨version, c, hs, body⟩, s3)
